@@ -987,6 +987,9 @@ class CallMixin:
     # ------------------------------------------------------------------ python builtins
     def bi_partial(self, node, env):
         """functools.partial(fn, *args, **kwargs) (tls.py: `partial(pull_key_share, buf)` as item parser of pull_list)"""
+        if len(node.args) == 1 and len(node.keywords) == 1 and node.keywords[0].arg is not None and isinstance(node.args[0], ast.Attribute):
+            # partial(<obj.method>, <keyword>=<object>) (asyncio/server.py: callbacks stored in fields): a callable VALUE (C19)
+            return self._bi_partial_value(node, env)
         if not node.args or any(isinstance(a, ast.Starred) for a in node.args):
             raise Unsupported("partial()")
         fn = self.eval(node.args[0], env)
@@ -1173,7 +1176,7 @@ class CallMixin:
         f = z3.Function("uf_partial", z3.IntSort(), z3.IntSort(), z3.IntSort(), z3.IntSort())
         return f(z3.IntVal(ids.setdefault(qual, len(ids))), recv_t, arg_t)
 
-    def bi_partial(self, node, env):
+    def _bi_partial_value(self, node, env):
         """(C19) functools.partial(<bound method obj.m>, <one keyword argument k=<object>>): a callable VALUE, the
         uninterpreted term uf_partial(code of "Cls.m", obj, argument object).  Nothing is assumed about calling it (a call
         of such a value goes through the callback contract of the field it is stored in); the term only lets a clause
